@@ -214,7 +214,7 @@ fn sc(v: ScalarValue) -> TensorValue {
 
 /// Values beyond `storeutil::gen_value`'s twelve kinds.
 fn value_for(kind: u8, u: u32) -> TensorData {
-    let k = kind % 20;
+    let k = kind % 22;
     if k < 12 {
         return gen_value(k, u);
     }
@@ -267,6 +267,20 @@ fn value_for(kind: u8, u: u32) -> TensorData {
             d.set("ps", TensorValue::Pointers(Vec::new()));
             d.set("p", TensorValue::Pointer(String::new()));
             d.set("sp", TensorValue::Sparse(SparseVector::new(4)));
+        },
+        20 | 21 => {
+            // opaque high-entropy payload (no encoder shrinks it): 4-48 KiB
+            let n = if k == 20 { 4096 + (u % 4096) as usize } else { 16 * 1024 + (u % (32 * 1024)) as usize };
+            let mut x = (u64::from(u) << 1 | 1).wrapping_mul(0x9E37_79B9_7F4A_7C15);
+            let mut b = Vec::with_capacity(n + 8);
+            while b.len() < n {
+                x ^= x << 13;
+                x ^= x >> 7;
+                x ^= x << 17;
+                b.extend_from_slice(&x.to_le_bytes());
+            }
+            b.truncate(n);
+            d.set("noise", sc(ScalarValue::Bytes(b)));
         },
         18 => {
             // large blob payload
@@ -1784,7 +1798,7 @@ fn gen_fill(rng: &mut Rng, r: u64, cfg: u8, nkeys: u64, nu: &mut dyn FnMut() -> 
     let t = rng.below(3) as u8;
     let engine = cfg == 0 && rng.chance(1, 3);
     match r {
-        0..=20 => Step::Put { class: rng.below(nclass) as u8, idx: rng.below(nkeys) as u16, kind: rng.below(20) as u8, u: nu() },
+        0..=20 => Step::Put { class: rng.below(nclass) as u8, idx: rng.below(nkeys) as u16, kind: rng.below(22) as u8, u: nu() },
         21..=24 => Step::PutMany { class: rng.below(nclass) as u8, start: rng.below(4) as u16 * 10, n: rng.range(2, 30) as u16, u: nu() },
         25..=29 => Step::Del { class: rng.below(nclass) as u8, idx: rng.below(nkeys) as u16 },
         30..=35 => Step::Table { t, engine },
